@@ -46,7 +46,10 @@ C01OK(rec) ==
        /\ rec.post.osize = 0 /\ rec.post.oroot = 0
        /\ CASE rec.op = "ins"  -> InsertContract(Mpre, Mpost, rec.n)
             [] rec.op = "era"  -> EraseContract(Mpre, Mpost, rec.k, rec.ret)
-            [] rec.op = "find" -> Mpost = Mpre /\ FindContract(Mpre, rec.k, rec.ret)
+            [] rec.op = "find" -> /\ Mpost = Mpre /\ FindContract(Mpre, rec.k, rec.ret)
+                                  \* the parent reported for a hinted insert: the found element's own parent, or the
+                                  \* node the search ended at (where the element would be attached)
+                                  /\ rec.nopar \/ rec.par = (IF rec.ret # 0 THEN pre.p[rec.ret] ELSE Find(pre, rec.k).par)
             [] rec.op = "foreach" -> Mpost = Mpre /\ ForeachContract(Mpre, rec.rev, rec.stop, rec.ev, rec.ret)
             [] rec.op = "clear" -> ClearContract(Mpre, rec.ev) /\ post.root = 0 /\ post.size = 0
             [] rec.op = "height" -> Mpost = Mpre
